@@ -12,7 +12,7 @@ Ev ==
   /\ l <= Len(Trace)
   /\ LET e == Trace[l]
          x == Expected(e.calls, e.fin)
-         ok == /\ e.err = "nil"
+         ok == /\ e.err = x.err
                /\ e.sql = x.sql
                /\ Len(e.vars) = Len(x.vars) /\ \A i \in DOMAIN x.vars : e.vars[i] = x.vars[i]
      IN bad' = IF ok THEN bad ELSE Append(bad, [i |-> l, want |-> x.sql, wantvars |-> x.vars])
